@@ -54,7 +54,7 @@ pub fn c15_history(seed: u64, idx: u64) -> (Vec<String>, u64, u64) {
         // targets of the mark_dirty the mutator ends with (pool indices), evaluated BEFORE the op
         let targets: Vec<NodeId> = match &op {
             Op::SetStyle(i, _) | Op::SetCtx(i, _) | Op::MarkDirty(i) => w.pool.get(*i).copied().flatten().into_iter().collect(),
-            Op::AddLeaf(p, ..) | Op::InsertLeaf(p, ..) | Op::RemoveChildAt(p, _) | Op::ReplaceChildAt(p, ..) | Op::Rotate(p) => {
+            Op::AddLeaf(p, ..) | Op::InsertLeaf(p, ..) | Op::RemoveChildAt(p, _) | Op::ReplaceChildAt(p, ..) | Op::Rotate(p) | Op::DropChild(p, _) => {
                 w.pool.get(*p).copied().flatten().into_iter().collect()
             }
             Op::Reparent(n, p) => {
@@ -148,6 +148,7 @@ fn op_name(op: &Op) -> &'static str {
         Op::RemoveChildAt(..) => "remove_child_at_index",
         Op::ReplaceChildAt(..) => "replace_child_at_index",
         Op::Rotate(..) => "set_children",
+        Op::DropChild(..) => "set_children (one child dropped)",
         Op::Reparent(..) => "remove_child+add_child",
         Op::Remove(..) => "remove",
         Op::SetCtx(..) => "set_node_context",
